@@ -73,3 +73,21 @@ func ZZ_C13_will_race(a []int) {
 	c.SetWill(w)
 	zzHammer([]ControlPacket{c, w})
 }
+
+// ZZ_C13_read_race: ReadPacket on distinct private streams from 8 goroutines.
+func ZZ_C13_read_race(a []int) {
+	n := a[1]
+	f := append([]byte{byte(a[0])<<4 | zzU8("fl")&0x0f, byte(n)}, zzBytes("b", n)...)
+	var wg sync.WaitGroup
+	for g := 0; g < 8; g++ {
+		wg.Add(1)
+		go func() {
+			defer wg.Done()
+			for i := 0; i < 200; i++ {
+				ReadPacket(&zzContig{b: append([]byte{}, f...)})
+				runtime.Gosched()
+			}
+		}()
+	}
+	wg.Wait()
+}
